@@ -216,8 +216,8 @@ def snapshot(gen):
     return [[k, mc.from_py(gen[k])] for k in OBSERVED]
 
 
-def apply_op(gen, op):
-    """perform one op on the real generator; returns (exception class name or None, markup or None)"""
+def apply_op(gen, op, pool=None):
+    """perform one op on the real generator; returns (exception class name or None, markup or None, contents or None)"""
     from flatland.out.markup import Tag
     try:
         kind = op["op"]
@@ -234,13 +234,17 @@ def apply_op(gen, op):
         elif kind == "tag":
             bind = mc.make_bind(op["bind"])
             kwargs = mc.kwargs_of(op["kwargs"])
+            if pool is not None and (op.get("handle") is not None or op.get("how", "call") != "call"):
+                # through a (held) Tag object: call / open / close / open + contents + close
+                out, contents = pool.render(op, bind, kwargs)
+                return None, out, contents
             if op["via"] == "prop":
                 out = getattr(gen, op["tag"])(bind, **kwargs)
             else:
                 out = gen.tag(op["tag"], bind, **kwargs)
                 if isinstance(out, Tag):
                     out = out()
-            return None, str(out)
+            return None, str(out), None
         else:
             raise ValueError(kind)
     except AssertionError:
@@ -248,8 +252,8 @@ def apply_op(gen, op):
     except CaseTimeout:
         raise
     except Exception as e:  # noqa
-        return type(e).__name__, None
-    return None, None
+        return type(e).__name__, None, None
+    return None, None, None
 
 
 def make_generator(init):
@@ -280,6 +284,7 @@ def run_reference(case, resolver=spec_resolve, stop_before=None):
         return fails
     if bad_init or init["markup"] not in ("xml", "xhtml", "html"):
         return [{"clause": "constructor", "expected": "exception", "observed": None}]
+    pool = mc.TagPool(gen)
     levels = [dict((k, v) for k, v in init["settings"])]      # innermost first
     restore = []                                               # snapshots taken at each successful begin
     scopes = [[]]                                              # tabindex values handed out per open scope
@@ -288,7 +293,7 @@ def run_reference(case, resolver=spec_resolve, stop_before=None):
         tb = dict(before)["tabindex"].get("v", 0)
         if stop_before is not None and i == stop_before:
             return fails, levels, tb
-        err, out = apply_op(gen, op)
+        err, out, contents = apply_op(gen, op, pool)
         after = snapshot(gen)
         kind = op["op"]
         if kind in ("begin", "set", "setitem", "update"):
@@ -327,6 +332,19 @@ def run_reference(case, resolver=spec_resolve, stop_before=None):
                 if after != want:
                     fails.append({"clause": "end-restores", "op": i, "expected": want, "observed": after})
         elif kind == "tag":
+            how = op.get("how", "call")
+            void = (op["tag"].lower() if op["via"] == "tag" else op["tag"]) in VOIDS
+            if how != "call" and void:
+                # Tag.open()/close() refuse void elements, before touching anything
+                if err != "ValueError":
+                    fails.append({"clause": "tag-renders", "op": i, "expected": "ValueError (open/close of a void element)", "observed": err})
+                if after != before:
+                    fails.append({"clause": "rejected-leaves-stack", "op": i, "expected": before, "observed": after})
+                continue
+            if how == "close":
+                if err is not None or out != "</%s>" % (op["tag"].lower() if op["via"] == "tag" else op["tag"]):
+                    fails.append({"clause": "tag-renders", "op": i, "expected": "closing tag", "observed": [err, out]})
+                continue
             bad = int_valued_option(op, levels)
             if bad is not None:
                 # an int stored for an option (outside the declared domain): resolving it raises AttributeError
@@ -337,6 +355,9 @@ def run_reference(case, resolver=spec_resolve, stop_before=None):
                 fails.append({"clause": "tag-renders", "op": i, "expected": "markup", "observed": err})
                 continue
             tag, attrs, text, handed = expected_tag(op, levels, resolver, tb)
+            if how == "open":
+                # what the template prints: the opening half, tag.contents, later the closing half
+                out = out + (contents or "") + "</%s>" % tag
             el = mc.single_element(mc.parse_events(out), VOIDS)
             if el is None:
                 fails.append({"clause": "tag-renders", "op": i, "expected": "one element", "observed": out})
@@ -357,7 +378,7 @@ def run_reference(case, resolver=spec_resolve, stop_before=None):
     # drain: exactly the open blocks can be ended
     opened = 0
     while opened < 64:
-        err, _ = apply_op(gen, {"op": "end"})
+        err, _, _ = apply_op(gen, {"op": "end"})
         if err is not None:
             if err != "RuntimeError":
                 fails.append({"clause": "unbalanced-end-raises", "op": "drain", "expected": "RuntimeError", "observed": err})
@@ -419,7 +440,15 @@ def _rand_tag(rng):
     if rng.random() < 0.1:
         kwargs.append(["contents", S(rng.choice(["val", " val ", "other", ""]))])
     rng.shuffle(kwargs)
-    return {"op": "tag", "via": via, "tag": tag, "bind": bind, "kwargs": kwargs}
+    op = {"op": "tag", "via": via, "tag": tag, "bind": bind, "kwargs": kwargs}
+    r = rng.random()
+    if r < 0.3:
+        # through a HELD Tag object (one per tag name and access path for the whole history), possibly open()/close()
+        op["handle"] = "%s/%s" % (via, tag.lower())
+        op["how"] = rng.choice(["call", "call", "openclose", "openclose", "open", "close"])
+    elif r < 0.36:
+        op["how"] = rng.choice(["openclose", "open", "close"])       # on a fresh object
+    return op
 
 
 def _rand_case(rng):
@@ -428,7 +457,7 @@ def _rand_case(rng):
         init["markup"] = "sgml"
     ops = []
     depth = 0
-    for _ in range(rng.choice([1, 2, 3, 4, 6, 8, 12])):
+    for _ in range(rng.choice([1, 2, 3, 4, 6, 8, 12, 12, 20, 30])):
         r = rng.random()
         if r < 0.2 and depth < 5:
             s = _rand_settings(rng, allow_unknown=rng.random() < 0.15, allow_int=True)
@@ -545,6 +574,16 @@ class C19(Property):
             # a tag call that raises AFTER the tabindex counter write (int stored for auto_filter): the counter stays advanced
             {"init": {"markup": "xhtml", "settings": [["auto_tabindex", B(True)], ["tabindex", I(5)]]},
              "ops": [{"op": "setitem", "key": "auto_filter", "value": I(5)}, inp, {"op": "setitem", "key": "auto_filter", "value": B(False)}, inp]},
+            # one held Tag object across a history: filled body, then empty; open()/contents/close(); a void element
+            {"init": {"markup": "xhtml", "settings": [["auto_tabindex", B(True)], ["tabindex", I(3)]]},
+             "ops": [{"op": "tag", "via": "prop", "tag": "textarea", "bind": {"kind": "scalar", "name": "a", "u": "val"}, "kwargs": [], "handle": "t", "how": "call"},
+                     {"op": "begin", "settings": [["auto_name", S("off")]]},
+                     {"op": "tag", "via": "prop", "tag": "textarea", "bind": {"kind": "scalar", "name": "b", "u": ""}, "kwargs": [], "handle": "t", "how": "openclose"},
+                     {"op": "tag", "via": "prop", "tag": "textarea", "bind": {"kind": "scalar", "name": "c", "u": "x y"}, "kwargs": [], "handle": "t", "how": "open"},
+                     {"op": "tag", "via": "prop", "tag": "textarea", "bind": None, "kwargs": [], "handle": "t", "how": "close"},
+                     {"op": "end"},
+                     {"op": "tag", "via": "prop", "tag": "textarea", "bind": {"kind": "scalar", "name": "d", "u": ""}, "kwargs": [], "handle": "t", "how": "call"},
+                     {"op": "tag", "via": "prop", "tag": "input", "bind": None, "kwargs": [], "how": "open"}]},
             # non-positive counters are handed out unchanged (tabindex=-1 twice): documented HTML meaning, outside "increasing"
             {"init": {"markup": "xhtml", "settings": [["auto_tabindex", B(True)], ["tabindex", I(-1)]]}, "ops": [inp, inp]},
         ]
@@ -580,12 +619,13 @@ class C19(Property):
         except Exception as e:  # noqa
             return {"init_err": type(e).__name__, "steps": [], "open": None}
         obs = {"init_err": None, "init_ctx": snapshot(gen), "steps": []}
+        pool = mc.TagPool(gen)
         for op in case["ops"]:
-            err, out = apply_op(gen, op)
-            obs["steps"].append({"err": err, "out": mc.safe(out), "ctx": snapshot(gen)})
+            err, out, contents = apply_op(gen, op, pool)
+            obs["steps"].append({"err": err, "out": mc.safe(out), "contents": mc.safe(contents), "ctx": snapshot(gen)})
         opened = 0
         while opened < 64:
-            err, _ = apply_op(gen, {"op": "end"})
+            err, _, _ = apply_op(gen, {"op": "end"})
             if err is not None:
                 break
             opened += 1
